@@ -69,8 +69,65 @@ class Reused:
         return y + np.array(dS)
 
 
+def steep_call_block(ctx, rng):
+    """the implicit symplectic methods through the public __call__ on steep Hamiltonians with large steps, where the stage equations are
+    hard to solve: the integrator may shorten the step or refuse it (FailedToMeetTolerances), but a step it hands back must be the method's
+    step for the dTime it reports -- its stage slopes solve the stage equations, and the step of -dTime from the new state leads back"""
+    def quartic(t, y):
+        return np.array([y[1], -y[0] ** 3])
+
+    def stiff2(t, y):
+        return np.array([y[2], y[3], -1e4 * y[0] - y[0] * y[1] ** 2, -y[1] - y[0] ** 2 * y[1]])
+
+    def pend(t, y):
+        return np.array([y[1], -25.0 * np.sin(y[0])])
+
+    cases = [("quartic", quartic, lambda: np.array([rng.choice([3.0, 10.0, 10.0, 30.0]) * rng.choice([1, -1]), rng.uniform(-0.5, 0.5)]), [0.5, 1.0, 0.25]),
+             ("stiff-2dof", stiff2, lambda: np.array([rng.uniform(0.5, 1.5), rng.uniform(0.5, 1.5), 0.0, rng.uniform(-0.5, 0.5)]), [0.1, 0.5, 1.0]),
+             ("pendulum", pend, lambda: np.array([rng.uniform(-2.5, 2.5), rng.uniform(-1, 1)]), [0.1, 0.5])]
+    reps = 2 if ctx.quick() else 8
+    for cls in [c for c in I.implicit_methods() if c.symplectic]:
+        tab = np.array(cls.tableau_intermediate, dtype=np.float64)
+        cvec, A = tab[:, 0], tab[:, 1:]
+        for (name, f, draw, hs) in cases:
+            for _ in range(reps):
+                y = draw()
+                h = rng.choice(hs) * rng.choice([1, -1])
+                inp = dict(kind="steep-call", method=cls.__name__, hamiltonian=name, y=[float(v) for v in y], h=h)
+                integ = cls((len(y),), dtype=np.float64)
+                F = DS.DiffRHS(f)
+                try:
+                    _, (dT, dS) = integ(F, np.float64(0.0), y.copy(), {}, np.float64(h))
+                except de.exception_types.FailedToMeetTolerances:
+                    ctx.count("steep-call:refused")
+                    continue
+                dT, dS = float(dT), np.array(dS, dtype=np.float64)
+                K = np.array(integ.stage_values, dtype=np.float64)          # (n, stages): the stage slopes of the accepted attempt
+                scale = float(np.max(np.abs(K))) + 1.0
+                res = 0.0
+                for i in range(K.shape[1]):
+                    Yi = y + dT * (K @ A[i])
+                    res = max(res, float(np.max(np.abs(K[:, i] - f(cvec[i] * dT, Yi)))))
+                ctx.oracle("accepted-step-solves-stage-equations", res <= 1e-6 * scale and bool(np.all(np.isfinite(dS))), dict(inp, dT=dT, residual=res, slope_scale=scale),
+                           what="the step handed back by __call__ (dTime %r) has stage slopes that miss the stage equations by %.2e (slopes up to %.2e)" % (dT, res, scale))
+                y1 = y + dS
+                try:
+                    _, (dT2, dS2) = cls((len(y),), dtype=np.float64)(DS.DiffRHS(f), np.float64(dT), y1.copy(), {}, np.float64(-dT))
+                except de.exception_types.FailedToMeetTolerances:
+                    ctx.count("steep-call:way-back-refused")
+                    continue
+                if float(dT2) != -dT:
+                    ctx.count("steep-call:way-back-shortened")
+                    continue
+                back = float(np.max(np.abs(y1 + np.array(dS2) - y)))
+                ctx.oracle("time-reversible", back <= 1e-7 * (1.0 + float(np.max(np.abs(y)))), dict(inp, mode="through-call-steep", dT=dT, defect=back),
+                           what="through __call__: a step of %r followed by a step of %r misses the start by %.2e" % (dT, -dT, back))
+                ctx.count("steep-call:accepted:" + name)
+
+
 def run(ctx):
     rng = ctx.rng
+    steep_call_block(ctx, rng)
     methods = [(I.SymplecticEulerSolver, True), (I.BABs9o7HSolver, True), (I.ABAs5o6HSolver, True),
                (I.GaussLegendre4, False), (I.GaussLegendre6, False), (I.ImplicitMidpoint, False)]
     flagged = sorted(c.__name__ for c in I.explicit_methods() + I.implicit_methods() if c.symplectic)
